@@ -25,12 +25,8 @@ SKIP = {'out-layout-not-enabled', 'excluded-field', 'explicit-asymmetric-out_nam
 
 
 def cause_of(term, issues):
-    for k in ('internal-tag-with-tuple-out-variant', 'D9:tuple-out-with-kw-only-field'):
-        if k in issues:
-            return k.split(':')[-1]
-    if overlapping_union(term):
-        return 'overlapping-union'
-    return None
+    from props.c05 import known_cause
+    return known_cause(term, issues, wrapped=False)
 
 
 def has_wrapped_tag(term):
